@@ -39,7 +39,7 @@ def value_sig(vt, tlv):
     return dict(vt=vt, form=form)
 
 
-def one_case(rec, cfg, agent, op, varbinds, k, sid=1):
+def one_case(rec, cfg, agent, op, varbinds, k, sid=1, form=None):
     """Open; send op; inject a matching reply with `varbinds`; recv; close. Returns (first, end) event range."""
     first = rec.n
     s = rawdrv.RawSession(rec, cfg, sid=sid)
@@ -53,7 +53,7 @@ def one_case(rec, cfg, agent, op, varbinds, k, sid=1):
         w, exc = s.send("getbulk", [BASE_TXT], maxrep=10)
     if w is not None:
         req = ag.Request(cfg, w)
-        d = agent.reply(cfg, req, varbinds)
+        d = agent.reply(cfg, req, varbinds, form=form)
         interp = rawdrv.real_entries([rc.enc_value(v) for _, v in varbinds])
         s.inject(d)
         s.recv(op, interp=interp)
@@ -186,6 +186,25 @@ def run(tier):
             a, b = one_case(rec, std[cn], agent, "getbulk", lay, k)
             runs.append((a, b, dict(cfg=cn, op="getbulk", vt="rows%d" % start, tlv=[], cls=-1)))
             chk.case((cn, "rows", start))
+    # long-form lengths at EVERY level of the reply (message, PDU, varbind list, varbinds, names, values), minimal or with redundant
+    # leading length octets (1..4 length octets: X.690 8.1.3.5 lets the sender choose) - a receiver takes them all
+    reps = [("int", -129), ("int", 2 ** 40), ("octets", b"hello"), ("octets", b"x" * 200), ("counter64", 2 ** 63 + 7), ("oid", [1, 3, 6, 1, 4, 1, 16384, 7]),
+            ("ip", bytes([10, 0, 105, 200])), ("timeticks", 400000000), ("null",), ("real", b"\x80\x00\x03"), ("gauge32", 2 ** 32 - 1), ("bool", True)]
+    for fi, form in enumerate(("long1", "long2", "long3", "long4")):
+        for vi, val in enumerate(reps):
+            for cn in (["v2c", "v3-sha1-aes", "v1"] if not thorough else carriers):
+                ops_ = ["get", "get_many", "getnext"] + ([] if std[cn].ver == "v1" else ["getbulk"])
+                op = ops_[(vi + fi) % len(ops_)]
+                if std[cn].ver == "v1" and val[0] == "counter64":
+                    continue
+                k += 1
+                lay = layouts(op, val, k, names)[0]
+                if form == "long1" and any(len(rc.enc_value(x)) > 120 for _, x in lay):
+                    continue                     # one length octet cannot express it
+                a, b = one_case(rec, std[cn], agent, op, lay, k, form=form)
+                t = rc.enc_value(val)
+                runs.append((a, b, dict(cfg=cn, op=op, vt=val[0], tlv=list(t), cls=-1, form=form)))
+                chk.case((cn, op, form, t.hex()))
     # random values over the full ranges
     nrand = 20000 if thorough else 2500
     for i in range(nrand):
@@ -242,7 +261,9 @@ def run(tier):
         sig = value_sig(info["vt"], info["tlv"])
         sig["ev"] = ev["ev"]
         got = ev.get("exc") or "value"
-        chk.violation(sig, "%s %s via %s/%s: tlv=%s got %s %s" % (info["vt"], sig["form"], info["cfg"], info["op"], bytes(info["tlv"]).hex()[:60], got, json.dumps(ev.get("res"))[:120]),
+        if info.get("form"):
+            sig["lenform"] = info["form"]
+        chk.violation(sig, "%s %s via %s/%s%s: tlv=%s got %s %s" % (info["vt"], sig["form"], info["cfg"], info["op"], (" (all lengths in form %s)" % info["form"]) if info.get("form") else "", bytes(info["tlv"]).hex()[:60], got, json.dumps(ev.get("res"))[:120]),
                       dict(info=info, events=rec.events[a:idx + 1]), confirm=(confirm_by_replay(replay, dict(info=info, events=[])) if ("api" in info and timing_event(ev)) else None))
     chk.sample(dict(kind="corpus-value", value=cvals[7]))
     chk.sample(dict(kind="events", events=rec.events[runs[5][0]:runs[5][1]]))
